@@ -85,6 +85,7 @@ const ERROR_SHAPES: &[&str] = &[
     "$UNSET", "${UNSET}", "a/$UNSET/b", "a${UNSET}b", "~/$UNSET", "~", "~/", "~/a", "~/a/b", "~/$V1", "~/${V2}/x", "~/..", "~/.",
     "a", "a/b", "/a/b", "a//b", "./a", "../a", "a/./b", "a/", "/", ".", "", " ", "a b/c", "é/日", "file://a", "/foo/${HOME}", "/foo/$V1",
     // the home symbol in every position of absolute and variable-led paths too
+    "~//foo", "~//", "~///a/b", "~/./x", "~/a//b",
     "/~", "/~/x", "/a/~", "/a~", "/a~b", "/a/~/~", "/~~", "//~", "/a/b/~/c", "./~", "../~", "$V1/~", "${V1}~", "/$V1/~", "/a/~x", "~/a~", "~/a/~",
     "$V1", "${V1}", "$V1/$V2", "${V1}${V2}", "$V1$V2", "x${V1}y", "x$V1", "/$V1", "/${V1}/", "$HOME", "${HOME}/a", "$HOME/$HOME",
 ];
